@@ -1296,3 +1296,53 @@ func (c *Ctx) foldedMap(rel string, g *ssa.Global) ([]cMapEntry, string) {
 	}
 	return out, ""
 }
+
+// foldedRows: the content of a package-level table of byte rows (a slice or array of arrays or slices) after
+// initialisation.
+func (c *Ctx) foldedRows(rel string, g *ssa.Global) ([][]int64, string) {
+	res := c.foldPackageInit(rel)
+	if res.err != "" {
+		return nil, res.err
+	}
+	cell, ok := res.globals[g]
+	if !ok {
+		return nil, "the initialiser never touches the variable"
+	}
+	elems := func(v cval) ([]cval, bool) {
+		switch x := v.(type) {
+		case *cSlice:
+			if x.arr == nil {
+				return nil, x.len == 0
+			}
+			a, ok := x.arr.v.(*cAgg)
+			if !ok {
+				return nil, false
+			}
+			return a.els[x.off : x.off+x.len], true
+		case *cAgg:
+			return x.els, true
+		}
+		return nil, false
+	}
+	outer, ok := elems(cell.v)
+	if !ok {
+		return nil, "the variable's value after initialisation is not a constant table"
+	}
+	var rows [][]int64
+	for i, rv := range outer {
+		inner, ok := elems(rv)
+		if !ok {
+			return nil, fmt.Sprintf("row %d is not a constant", i)
+		}
+		row := make([]int64, len(inner))
+		for j, e := range inner {
+			n, ok := e.(int64)
+			if !ok {
+				return nil, fmt.Sprintf("row %d position %d is not a constant", i, j)
+			}
+			row[j] = n
+		}
+		rows = append(rows, row)
+	}
+	return rows, ""
+}
